@@ -29,6 +29,7 @@
 #include "strutil.h"
 
 #include <assert.h>
+#include <errno.h>
 #include <string.h>
 
 #define LEAVE goto func_exit
@@ -72,6 +73,16 @@ static Boolean CutRep(
             return OK;
         }
     }
+}
+
+/* make room for Rep elements of ElemBytes bytes behind the code emitted so far;
+   computed wide, so that a huge repeat count cannot wrap around to a small size */
+
+static int SetRepCodeLen(LargeInt Rep, LargeInt ElemBytes) {
+    if ((Rep < 0) || (ElemBytes < 0) || ((ElemBytes > 0) && (Rep > MaxCodeLen_Max / ElemBytes))) {
+        return ENOMEM;
+    }
+    return SetMaxCodeLen(CodeLen + (LongWord)(Rep * ElemBytes));
 }
 
 static void PutByte(Byte Value) {
@@ -131,7 +142,7 @@ void DecodeMotoBYT(Word Index) {
                         && !RangeCheck(t.Contents.Int, Int8)) {
                         WrStrErrorPos(ErrNum_OverRange, &Arg);
                         OK = False;
-                    } else if (SetMaxCodeLen(CodeLen + Rep)) {
+                    } else if (SetRepCodeLen(Rep, 1)) {
                         WrError(ErrNum_CodeOverflow);
                         OK = False;
                     } else {
@@ -158,7 +169,7 @@ void DecodeMotoBYT(Word Index) {
                     l = t.Contents.str.len;
                     TranslateString(t.Contents.str.p_str, l);
 
-                    if (SetMaxCodeLen(CodeLen + (Rep * l))) {
+                    if (SetRepCodeLen(Rep, l)) {
                         WrError(ErrNum_CodeOverflow);
                         OK = False;
                     } else {
@@ -281,7 +292,7 @@ void DecodeMotoADR(Word Index) {
                     break;
                 }
 
-                if (SetMaxCodeLen(CodeLen + ((Cnt * Rep) << 1))) {
+                if (SetRepCodeLen(Rep, (LargeInt)Cnt * 2)) {
                     WrError(ErrNum_CodeOverflow);
                     OK = False;
                     break;
@@ -346,7 +357,7 @@ static void DecodeFCC(Word Index) {
 
             EvalStrStringExpression(&Arg, &OK, SVal);
             if (OK) {
-                if (SetMaxCodeLen(CodeLen + Rep * strlen(SVal))) {
+                if (SetRepCodeLen(Rep, strlen(SVal))) {
                     WrError(ErrNum_CodeOverflow);
                     OK = False;
                 } else {
@@ -881,7 +892,7 @@ void DecodeMotoDC(tSymbolSize OpSize, Boolean Turn) {
                         && !RangeCheck(t.Contents.Int, IntTypeEnum)) {
                     WrError(ErrNum_OverRange);
                     OK = False;
-                } else if (SetMaxCodeLen(CodeLen + (Rep * WSize))) {
+                } else if (SetRepCodeLen(Rep, WSize)) {
                     WrError(ErrNum_CodeOverflow);
                     OK = False;
                 } else {
@@ -898,7 +909,7 @@ void DecodeMotoDC(tSymbolSize OpSize, Boolean Turn) {
                 } else if (!FloatRangeCheck(t.Contents.Float, FloatTypeEnum)) {
                     WrError(ErrNum_OverRange);
                     OK = False;
-                } else if (SetMaxCodeLen(CodeLen + (Rep * WSize))) {
+                } else if (SetRepCodeLen(Rep, WSize)) {
                     WrError(ErrNum_CodeOverflow);
                     OK = False;
                 } else {
@@ -923,7 +934,7 @@ void DecodeMotoDC(tSymbolSize OpSize, Boolean Turn) {
                 }
                 if (!EnterInt) {
                     if (ConvertFloat && EnterFloat) {
-                        if (SetMaxCodeLen(CodeLen + (Rep * WSize * t.Contents.str.len))) {
+                        if (SetRepCodeLen(Rep, (LargeInt)WSize * t.Contents.str.len)) {
                             WrError(ErrNum_CodeOverflow);
                             OK = False;
                         } else {
@@ -951,7 +962,7 @@ void DecodeMotoDC(tSymbolSize OpSize, Boolean Turn) {
                         WrError(ErrNum_FloatButString);
                         OK = False;
                     }
-                } else if (SetMaxCodeLen(CodeLen + Rep * WSize * t.Contents.str.len)) {
+                } else if (SetRepCodeLen(Rep, (LargeInt)WSize * t.Contents.str.len)) {
                     WrError(ErrNum_CodeOverflow);
                     OK = False;
                 } else {
